@@ -305,6 +305,21 @@ func genC06(t *core.Tape, tier string) *Scenario {
 	if can.Trailer != nil {
 		can.Trailer = canonKeys(can.Trailer)
 	}
+	if t.Bool(1, 6, "announced.trailers") {
+		// trailers announced in a Trailer header and never sent: net/http lists
+		// every announced key in Response.Trailer, mapped to nil
+		tr := http.Header{}
+		for k, v := range can.Trailer {
+			tr[k] = v
+		}
+		for _, k := range []string{"Grpc-Status", "Grpc-Message", "Grpc-Status-Details-Bin", "X-Announced"} {
+			if _, ok := tr[k]; !ok && t.Bool(1, 2, "announced.key") {
+				tr[k] = nil
+			}
+		}
+		can.Trailer = tr
+		sc.Notes["announced_unsent_trailers"]++
+	}
 	if info.class != "adversarial" && sc.Clients[0].ReadMax == 0 {
 		// A hostile length prefix makes a client without a read limit reserve up
 		// to 4 GiB by design; keep the simulated process small.
